@@ -10,7 +10,7 @@ CONSTANTS Big           \* FALSE: quick pools, TRUE: thorough pools
 Tables ==
     { [t |-> <<0, 10, 20, 30>>, hastime |-> TRUE, data |-> [a |-> <<0, 5, 0, 1>>, b |-> <<1, 1, 5, 0>>],
        z |-> <<0, 1, 2, 3>>, lat |-> <<>>, lon |-> <<>>],
-      [t |-> <<0, 10, 20>>, hastime |-> TRUE, data |-> [a |-> <<5, 0, 5>>, b |-> <<0, 0, 1>>],
+      [t |-> <<0, 10, 20>>, hastime |-> TRUE, data |-> [a |-> <<5, -3, 300>>, b |-> <<0, 0, 1>>],
        z |-> <<>>, lat |-> <<0, 2, 0>>, lon |-> <<0, 0, 2>>] }
     \cup (IF Big THEN { [t |-> <<0, 10, 20, 30, 40>>, hastime |-> TRUE, data |-> [a |-> <<0, 0, 5, 0, 1>>, b |-> <<1, 5, 1, 1, 0>>],
                          z |-> <<3, 2, 1, 1, 0>>, lat |-> <<0, 0, 2, 2, 0>>, lon |-> <<0, 2, 2, 0, 0>>] } ELSE {})
